@@ -167,3 +167,35 @@ def values(task, tier, seed=0):
         yield [{}]
         yield {'': {}}
         yield {'': []}
+
+
+# ---------------------------------------------------------------------------
+# Every Unicode code point inside strings (not only in validated names):
+# alone, first and last character of a long string, and inside field names.
+
+CP_BLOCK = 64
+CP_RANGES = [(0, 0xD800), (0xE000, 0x110000)]
+
+
+def codepoint_tasks():
+    out = []
+    for lo, hi in CP_RANGES:
+        step = 0x4000
+        for a in range(lo, hi, step):
+            out.append(('codepoints', a, min(hi, a + step)))
+    return out
+
+
+def codepoint_blocks(lo, hi):
+    """Yield (first code point, [strings], {field name: value}) per block of
+    64 code points: each code point alone, first and last in a string; and
+    as first / last character of a field name."""
+    for a in range(lo, hi, CP_BLOCK):
+        cps = [chr(c) for c in range(a, min(hi, a + CP_BLOCK))]
+        strings = []
+        names = {}
+        for i, c in enumerate(cps):
+            strings += [c, c + 'ab', 'ab' + c]
+            names[c + 'k%d' % i] = i
+            names['k%d' % i + c] = c
+        yield a, strings, names
